@@ -899,7 +899,8 @@ class TmpPool:
                 # already removed
                 pass
 
-        self._created_files = self._manager.list() if self._multi_proc else []
+        # emptied in place: child processes of a multi_proc pool keep using the same shared list
+        self._created_files[:] = []
 
 
 class FilePool(Mapping[str, IO]):
